@@ -106,6 +106,31 @@ def accounting_cases() -> List[dict]:
     return out
 
 
+# whole scripts (differential): block structure where two constructs meet
+W_SCRIPTS = {
+    "forward_trailing_block": ["def run(n):", "    pulse(n * 0.5)", "    pulse(n)", "def pulse(k):", "    mon.write(k)", "    for i in range(2):", "        led.toggle()", "        mon.write(i + k)", "run(2)", "run(a)"],
+    "forward_trailing_if": ["def run(n):", "    return check(n) + check(n * 0.5)", "def check(k):", "    t = 0", "    if k > 1:", "        t = 5", "        mon.write(k)", "    return t", "mon.write(run(a))"],
+    "forward_trailing_while": ["def run(n):", "    spin(n)", "    spin(n + 0.5)", "def spin(k):", "    j = 0", "    while j < 2:", "        j += 1", "        mon.write(j + k)", "run(1)"],
+}
+for _oc, _ic in itertools.product(("a > 3", "a > 5", "a < 9"), ("a > 5", "a == 4", "a > 1")):
+    W_SCRIPTS[f"nested_if_else:{_oc}:{_ic}"] = [f"if {_oc}:", f"    if {_ic}:", '        mon.write("inner")', "else:", '    mon.write("outer-else")', 'mon.write("end")']
+    W_SCRIPTS[f"nested_if_elif:{_oc}:{_ic}"] = [f"if {_oc}:", f"    if {_ic}:", "        led.on()", "elif a > 0:", "    led.set_brightness(7)", "else:", "    led.off()", "mon.write(led.get_brightness())"]
+    W_SCRIPTS[f"nested_if_else_fn:{_oc}:{_ic}"] = ["def show(a):", f"    if {_oc}:", f"        if {_ic}:", '            mon.write("inner")', "    else:", '        mon.write("outer-else")', "show(a)", "show(a + 2)"]
+    W_SCRIPTS[f"nested_both_else:{_oc}:{_ic}"] = [f"if {_oc}:", f"    if {_ic}:", '        mon.write("ii")', "    else:", '        mon.write("ie")', "else:", '    mon.write("oe")']
+    W_SCRIPTS[f"for_if_else:{_oc}:{_ic}"] = ["for i in range(2):", f"    if {_oc}:", f"        if {_ic}:", "            mon.write(i)", "    else:", "        mon.write(9)"]
+
+
+def whole_script_cases() -> List[dict]:
+    out = []
+    for name, lines in W_SCRIPTS.items():
+        for placement in ("setup", "loop"):
+            src = common.script(lines, None, prologue=PRO) if placement == "setup" else common.script([ln for ln in lines if ln.startswith(("def ", "    ")) and lines[0].startswith("def ")] if False else [], lines, prologue=PRO)
+            if placement == "loop" and any(ln.startswith("def ") for ln in lines):
+                continue
+            out.append({"id": f"W:{name}:{placement}", "space": "A", "src": src, "runs": [{"passes": 0 if placement == "setup" else 2, "ar": {"A0": [v]}} for v in (2, 4, 6)], "probe": lines, "scope": placement})
+    return out
+
+
 def _allowed_ignored(line: str, reason: str) -> bool:
     text = line.strip()
     if reason in ("print", "constant-expression"):
@@ -187,6 +212,8 @@ CORPUS: Dict[str, str] = {
     "strings": HEAD + 'mon = SerialMonitor(9600)\ns = "a#b"\nmon.write(s)\nmon.write("it\'s # fine")\nmon.write(f"{s}: # {1 + 2}")\nw = \'q"#\'\nmon.write(w + "\\\\")\nwhile True:\n    mon.write("#")\n',
     "lists": HEAD + 'mon = SerialMonitor(9600)\nitems = [1, 2, 3]\nitems.append(4)\nfor i in range(len(items)):\n    mon.write(items[i])\nwhile True:\n    items.remove(items[0])\n    items.append(7)\n    mon.write(items[-1])\n',
     "constants": HEAD + 'mon = SerialMonitor(9600)\na = analog_read("A0")\nv1 = 200\nw = [1, 0, 1]\nfor i in range(2):\n    w.append(5)\n    v1 = v1 + 1\nmon.write(len(w))\nsleep(v1)\nv2 = 50\nif a > 3:\n    v2 = 120\nelse:\n    w.append(7)\nsleep(v2)\nmon.write(len(w))\nv3 = 5\nk = 0\nwhile k < 2:\n    k += 1\n    v3 = v3 * 2\nsleep(v3)\nv4 = 9\nwhile True:\n    sleep(v4)\n    if a > 5:\n        v4 = 7\n    mon.write(len(w))\n    w.append(1)\n',
+    "helper_locals": HEAD + 'mon = SerialMonitor(9600)\nled = Led(9)\nlevel = 200\ncount = 3\ndef dim():\n    level = 5\n    led.set_brightness(level)\n    for count in range(2):\n        mon.write(count)\n    return level\ndef bump():\n    global count\n    count = count + 1\n    lo, hi = 1, 2\n    return lo + hi\ndim()\nbump()\nled.set_brightness(level)\nwhile True:\n    mon.write(count + level)\n    bump()\n',
+    "forward_helpers": HEAD + 'mon = SerialMonitor(9600)\nled = Led(9)\ndef run(n):\n    pulse(n * 0.5)\n    pulse(n)\ndef pulse(k):  # forward\n    mon.write(k)\n    for i in range(2):\n        led.toggle()\n        sleep(k)\nrun(2)\nwhile True:\n    run(3)\n',
     "setup_only": HEAD + 'mon = SerialMonitor(9600)\nled = Led(4)\nled.blink(5, times=2)\na, b = 1, 2\na, b = b, a\nmon.write(a - b)\n',
 }
 
@@ -348,7 +375,7 @@ def main(tier: str, seed: int, only=None) -> int:
     os.environ["REDUINO_VERIF"] = "1"
     if not only or "A" in only:
         # a sketch that does not compile is C06's business; here a statement must not vanish silently
-        common.drive(report, MOD, accounting_cases(), opts={"host_timeout": 5.0}, batch_size=40, bad=("violation", "transpile_crash", "transpile_timeout"))
+        common.drive(report, MOD, accounting_cases() + whole_script_cases(), opts={"host_timeout": 5.0}, batch_size=40, bad=("violation", "transpile_crash", "transpile_timeout"))
     layout_stats = {}
     if not only or "L" in only:
         jobs = [(name, src, tier, tier == "thorough") for name, src in CORPUS.items()]
